@@ -101,7 +101,7 @@ def own(det, pid):
 print("\n#### Detection per wave (the property's own check / any check; `initial` = first run after the wave was written, before strengthening)\n")
 print("| wave | regressions | initial: own check detects (with concrete input) | now: own check detects (with concrete input) | now: some check detects | now: missed by every check run |")
 print("|---|---|---|---|---|---|")
-waves = [("1-2 (m1, m2)", ("m1", "m2")), ("3 (m3, m4)", ("m3", "m4")), ("4 (m5, m6)", ("m5", "m6")), ("5 (m7, m8)", ("m7", "m8")), ("6 (m9, m10)", ("m9", "m10")), ("7 (m11, m12)", ("m11", "m12"))]
+waves = [("1-2 (m1, m2)", ("m1", "m2")), ("3 (m3, m4)", ("m3", "m4")), ("4 (m5, m6)", ("m5", "m6")), ("5 (m7, m8)", ("m7", "m8")), ("6 (m9, m10)", ("m9", "m10")), ("7 (m11, m12)", ("m11", "m12")), ("8 (m13)", ("m13",))]
 for name, sufs in waves:
     n = io = ioc = no = noc = na = 0
     missed = []
